@@ -11,14 +11,20 @@ from .. import tables as TB
 ID = "C18"
 LEVEL = "other"
 RULE_TEXT = ("the block-keyword table, the parent-assignment decision table of build_blocks, the routing table vs the handling arms of Data::new, the "
-             "(block type, attribute key, accessor, required|default) rows of every TryFrom<BdlBlock>, and the column handling of the KyG/tbl parsers")
+             "(block type, attribute key, accessor, required|default) rows of every TryFrom<BdlBlock>, the column handling of the KyG/tbl parsers; provenance of the "
+             "values merged from the catalogue; dominance (count test before record parse) and must-pass-through (ABSORPTANCE on every loop path) queries over the CFG")
 EXPLANATION = ("D1 BdlBlockType::from_str maps one keyword to each of the variants (keyword = variant name); D2 parents: FLOOR sets the floor, SPACE hangs from the "
                "floor, the five wall kinds hang from the space, CONSTRUCTION/WINDOW/DOOR hang from the wall, everything else has no parent; D3 the block types routed into "
                "each bucket are exactly the types its match handles; D4 every recorded attribute row is still read with the same key, type and default (one-directional); "
                "D5 KyG numeric columns go through the decimal-comma replacement and ElemType's code table is complete")
 DECIDED = ["D1 keyword table", "D2 parent table", "D3 routing = handling", "D4 attribute rows (one-directional)", "D5 KyG/tbl column handling",
-           "D6 tbl record fields are read from the column of their declaration position; the KyG obstruction factor is column 6 / column 3"]
-UNDECIDED = ["everything lexical: comments, blank lines, CRLF, quoting, multi-line lists, number formats, names that look like numbers"]
+           "D6 tbl record fields are read from the column of their declaration position; the KyG obstruction factor is column 6 / column 3",
+           "D7 project definitions win over catalogue entries of the same name (provenance of every value entering a project table)",
+           "D8 every f32 parse of a KyG column goes through the decimal-comma replacement; an optional KyG column i is read whenever the line has more than i columns",
+           "D9 a quoted attribute value never reaches the number test with its quotes removed",
+           "D10 a construction's ABSORPTANCE is stored on every path through the loop that merges CONSTRUCTION and LAYERS blocks",
+           "D11 the record loops of tbl::parse test the header's count before reading a record"]
+UNDECIDED = ["everything else lexical: comments, blank lines, CRLF, multi-line lists, number formats, names that look like numbers"]
 ASSUMPTIONS = ["the attribute rows in ctecheck/spec/bdl_schema.py were transcribed from the doc-comment examples and the code of the pinned commit and reviewed"]
 LEVEL_TEXT = ("Partial (tables only): the keyword, parent, routing and attribute tables through which 'every value written in the file is recovered' are read from MIR and "
               "compared with the transcribed reference tables, for all block types at once; a dropped parent arm, a misrouted block type, a misspelt attribute key or a "
